@@ -191,8 +191,9 @@ def run_real(cfg: Dict[str, Any]) -> Tuple[List[List[Any]], str]:
                 raise _Boom(ob.i)
 
     def mk(tag: str):
-        # how an extension class comes by its handlers is no dimension of the spec, so every run mixes the three ways: defined by
-        # the class itself (B, I), all inherited from another extension class (B2, O), the departure alone inherited (A)
+        # how an extension class comes by its handlers is no dimension of the spec, so every run mixes the five ways: defined by
+        # the class itself (B, I), all inherited from another extension class (B2, O), the departure alone inherited (A),
+        # spelled in lower case (I, trees of even size), left to unknown_visit / unknown_departure (B, trees of odd size)
         class Own(V.VisitorExt):  # type: ignore[type-arg]
             when = getattr(V.When, EXT_WHEN[tag])
 
@@ -209,6 +210,26 @@ def run_real(cfg: Dict[str, Any]) -> Tuple[List[List[Any]], str]:
             class E(Own):       # type: ignore[no-redef]
                 def visit_Nd(self, ob):
                     events.append([tag, "visit", ob.i])
+        elif tag == "I" and n % 2 == 0:
+            # the lower-case spelling of the handlers (the dispatch accepts it for entering and for leaving alike)
+            class E(V.VisitorExt):  # type: ignore[no-redef,type-arg]
+                when = getattr(V.When, EXT_WHEN[tag])
+
+                def visit_nd(self, ob):
+                    events.append([tag, "visit", ob.i])
+
+                def depart_nd(self, ob):
+                    events.append([tag, "depart", ob.i])
+        elif tag == "B" and n % 2 == 1:
+            # no handler of its own for this class of node: what the dispatch falls back on
+            class E(V.VisitorExt):  # type: ignore[no-redef,type-arg]
+                when = getattr(V.When, EXT_WHEN[tag])
+
+                def unknown_visit(self, ob):
+                    events.append([tag, "visit", ob.i])
+
+                def unknown_departure(self, ob):
+                    events.append([tag, "depart", ob.i])
         else:
             E = Own             # type: ignore[misc]
         E.__name__ = "E_" + tag
